@@ -2,10 +2,10 @@
    Every theorem is about Model/Auth.v (stdTransport.RoundTrip and below) run under ANY
    configuration, network, clock and url.Parse (the record E), and ANY schedule l of calls
    (any number of hosts and of calls in flight, phases interleaved arbitrarily).
-   The clauses evP1..evP4 are defined in Model/AuthSpec.v over the observable history alone. *)
+   The clauses evP1..evP5 are defined in Model/AuthSpec.v over the observable history alone. *)
 From Coq Require Import String ZArith.
 From OCI Require Import Base.Outcome Model.Scope Model.Challenge Model.Auth Model.AuthSpec
-  Proofs.Challenge Proofs.AuthC11 Proofs.AuthProps.
+  Proofs.Challenge Proofs.AuthC11 Proofs.AuthProps Proofs.AuthBody Proofs.AuthParse.
 
 (* password_destinations + host_isolation (registry side): every request that reaches a
    registry host is the caller's request to that very host; its Authorization header is the
@@ -41,6 +41,24 @@ Print Assumptions C11_at_most_two_registry_attempts.
 Theorem C11_body_closed : forall E l, all_ok evP4 (history (run E l)) = true.
 Proof. exact P4_holds. Qed.
 Print Assumptions C11_body_closed.
+
+(* body_closed, body by body: when a call returns, there have been at least as many hand-overs
+   to the underlying transport and closes by the transport itself as request bodies the call has
+   had in its hands - the one it was given and one for every GetBody call that returned a body.
+   (A copy obtained from GetBody and then dropped on an early exit breaks this, not the clause
+   above: Proofs/AuthBody.v P5_sees_the_copy.) *)
+Theorem C11_every_body_closed : forall E l, all_ok evP5 (history (run E l)) = true.
+Proof. exact P5_holds. Qed.
+Print Assumptions C11_every_body_closed.
+
+(* challenge_names_case_insensitive: whatever the spelling in the header, the parser hands out
+   the scheme and every parameter name in lower case - the form in which the transport looks
+   them up (realm, service, scope; basic, bearer). *)
+Theorem C11_challenge_names_lower : forall header h,
+  parseWWWAuthenticate header = Ok (Some h) ->
+  no_upper (ah_scheme h) = true /\ forall k v, In (k, v) (ah_params h) -> no_upper k = true.
+Proof. exact parse_lower. Qed.
+Print Assumptions C11_challenge_names_lower.
 
 (* request_untouched: the transport works on a clone; the request a call holds is the one it
    was started with, whatever happened in between. *)
